@@ -1,1 +1,5 @@
 -- modules of work area Routing (add imports here)
+import AM.Base.Labels
+import AM.Base.Matcher
+import AM.Model.Route
+import AM.Props.C07
